@@ -419,5 +419,5 @@ def run_problem(spec, rec):
 
 
 def subchecks(tier):
-    return [Sub("solve", cases(), run_case, quick=9000, thorough=150000),
+    return [Sub("solve", cases(), run_case, quick=14000, thorough=200000),
             Sub("problem", problem_cases(), run_problem, quick=600, thorough=6000)]
